@@ -1,4 +1,6 @@
 import CoercionModel.Model.Search
+import CoercionModel.Model.SkeletonsCosmos
+import CoercionModel.Generated.F11
 set_option linter.unusedSimpArgs false
 /-
   C15 — Exists, Search and List answer exactly from stored state and terminate.
@@ -83,5 +85,11 @@ example : (⟨2, 7, .completed, 10⟩ : Row) ∉ search { statuses := [.running,
   rw [search_exact]; simp [isMatch]
 example : (⟨3, 8, .running, 20⟩ : Row) ∈ search { statuses := [.running] } st := running_found st _ (by decide) rfl
 example : (list 2 st).length = 2 := by have := (list_spec 2 st).2.1 (by decide); simpa [st] using this.1
+
+set_option maxRecDepth 100000 in
+/-- CosmosDB backend: the functions that implement this property there still have the shape that was read
+    against the model (skeletons regenerated from /repo on every run, Model/SkeletonsCosmos). A static tie
+    only: the repository's fake Cosmos client cannot judge this part dynamically. -/
+theorem facts_cosmos_skeleton : Generated.F11.query = SkeletonsCosmos.query := by decide +kernel
 
 end Coercion.C15
